@@ -317,6 +317,10 @@ class TCPPacketGenerator(Device, OutMixIn):
         assert ack.flow_id >= 10000
 
         ackno = ack.ack
+        if ackno < self.last_ack:
+            # overtaken by a later cumulative ACK on the way back: it
+            # acknowledges nothing new and is not a duplicate either
+            return
         if ackno == self.last_ack:
             self.dupack += 1
         else:
